@@ -171,6 +171,17 @@ impl Scenario for ShuffleScenario {
         p
     }
 
+    fn warmup(&self) -> Option<Value> {
+        let mut p = json!({"shards": 2, "row": "ba64", "n": 4, "assign": [0, 1, 0, 1], "malicious": true, "value_seed": 1,
+            "knobs": {"active": 8, "read_size": 64, "world_seed": 1}, "node_tasks": false,
+            "sched": {"seed": 1, "policy": {"kind": "uniform"}, "max_steps": 3_000_000}});
+        if self.tampered {
+            p["corrupt"] = json!(1);
+            p["site_seed"] = json!(1);
+        }
+        Some(p)
+    }
+
     fn exec(&self, p: &Value, explicit: Option<Vec<u32>>) -> RunRes {
         let shards = pu(p, "shards");
         if ![1usize, 2, 3, 5].contains(&shards) {
@@ -242,9 +253,11 @@ macro_rules! make_exec {
                     }
                     if node_tasks {
                         // every (helper, shard) node is a task of its own: the scheduler also decides which node moves next (the
-                        // stock runner polls all nodes from one task in a fixed order). The world is leaked so that the tasks can
-                        // borrow it for 'static; the worker process is short-lived.
-                        let world: &'static TestWorld<WithShards<$n, PlanDistribute>> = Box::leak(Box::new(world));
+                        // stock runner polls all nodes from one task in a fixed order). The world is shared by reference counting (see SharedWorld).
+                        let keep = SharedWorld::new(world);
+                        // SAFETY: `keep` outlives every use in this task, and each node task holds its own clone (declared before, hence
+                        // dropped after, everything that borrows from the world)
+                        let world: &'static TestWorld<WithShards<$n, PlanDistribute>> = unsafe { keep.get() };
                         let mut per: Vec<Vec<Vec<S>>> = (0..3).map(|_| (0..$n).map(|_| Vec::new()).collect()).collect();
                         let [h0, h1, h2] = per_helper;
                         for (h, rows) in [h0, h1, h2].into_iter().enumerate() {
@@ -259,7 +272,10 @@ macro_rules! make_exec {
                                     for (sh, ctx) in v.into_iter().enumerate() {
                                         let rows = std::mem::take(&mut per[h][sh]);
                                         let log = StdArc::clone(&log);
+                                        let keep_node = keep.share();
                                         handles.push(shuttle::future::spawn(async move {
+                                            let _keep_node = keep_node;
+                                            let ctx = ctx;
                                             let key = (role_idx(ctx.role()), usize::from(ctx.shard_id()));
                                             let r = ctx.sharded_shuffle(rows).await;
                                             log.lock().unwrap().insert(key, r.map(|v| v.iter().map(Row::lr).collect()).map_err(|e| e.to_string()));
@@ -276,6 +292,7 @@ macro_rules! make_exec {
                         for h in handles {
                             h.await.unwrap();
                         }
+                        drop(keep);
                         return;
                     }
                     let input = Shared3(per_helper);
